@@ -20,7 +20,9 @@ namespace Builtin.Text
 abbrev Str := List Char
 
 def isSpaceRe2 (c : Char) : Bool := c == ' ' || c == '\t' || c == '\n' || c == '\x0c' || c == '\r'
-def isSpacePy (c : Char) : Bool := isSpaceRe2 c || c == '\x0b' || (0x1c ≤ c.toNat && c.toNat ≤ 0x1f)
+/-- ASCII characters that Python's `\s` / `str.isspace` accept but RE2's `\s` does not: \v and 0x1c–0x1f -/
+def oddSpace (c : Char) : Bool := c.toNat == 0x0b || (0x1c ≤ c.toNat && c.toNat ≤ 0x1f)
+def isSpacePy (c : Char) : Bool := isSpaceRe2 c || oddSpace c
 
 def isPunct (c : Char) : Bool := Gen.BuiltinVocab.punctuation.toList.contains c
 
